@@ -6,6 +6,8 @@ import (
 	"path/filepath"
 	"regexp"
 	"strings"
+	"testing"
+	"testing/synctest"
 	"time"
 
 	"github.com/google/go-tdx-guest/abi"
@@ -75,9 +77,48 @@ func quoteForms(w *world.World) (raw []byte, parsed *pb.QuoteV4, built *pb.Quote
 	return raw, m.(*pb.QuoteV4), w.Quote.Proto(0), nil
 }
 
+// c11Defaults: the library's own default options (time read from the clock by the library)
+// on the testing/synctest fake clock, for an honest world generated around the bubble's epoch.
+func c11Defaults(r *core.Run) {
+	bubbleEpoch := time.Date(2000, 1, 1, 0, 0, 0, 0, time.UTC)
+	cfg := swarmCfg(r)
+	cfg.Epoch = bubbleEpoch.AddDate(0, 0, 2)
+	cfg.SpreadTimes = false
+	w := world.NewWorld(r.T, cfg)
+	raw := w.Quote.Bytes()
+	wait := time.Duration(r.T.Draw(4*24)) * time.Hour // up to 4 days after the bubble's start: still inside every window
+	type res struct{ name, verdict string }
+	var out []res
+	synctest.Test(r.TB, func(tb *testing.T) {
+		time.Sleep(wait)
+		for level := O0; level <= O2; level++ {
+			o := verify.DefaultOptions() // Now := time.Now() of the fake clock
+			o.Getter, o.TrustedRoots = w.PCS, w.Pool
+			o.GetCollateral, o.CheckRevocations = level >= O1, level == O2
+			out = append(out, res{"DefaultOptions/" + optNames[level], errClass(verifyRaw(raw, o))})
+			o2 := &verify.Options{Getter: w.PCS, TrustedRoots: w.Pool, GetCollateral: level >= O1, CheckRevocations: level == O2} // Now unset
+			out = append(out, res{"Now-unset/" + optNames[level], errClass(verifyRaw(raw, o2))})
+		}
+	})
+	for _, x := range out {
+		r.Eval()
+		r.Eventf("%s at fake clock +%v -> %s", x.name, wait, x.verdict)
+		if x.verdict != "accepted" {
+			r.Violate("C11:honest-rejected-with-default-time:"+x.verdict, "honest in-date world rejected with %s (time taken from the clock, fake clock at epoch+%v): %s", x.name, wait, x.verdict)
+		}
+	}
+	r.SimTime += wait
+	r.Probe("default_options_on_fake_clock")
+	r.State("defaults wait=%dd", int(wait.Hours())/24)
+}
+
 func c11Run(r *core.Run) {
 	if r.Index == 0 {
 		c11Samples(r)
+		return
+	}
+	if r.Index%10 == 1 {
+		c11Defaults(r)
 		return
 	}
 	cfg := swarmCfg(r)
@@ -234,6 +275,6 @@ func init() {
 			return 160
 		},
 		Run:       c11Run,
-		MustProbe: []string{"module_branch", "matching_level_not_first", "auth_65535", "recovery_after_faults", "intel_sample_quote"},
+		MustProbe: []string{"module_branch", "matching_level_not_first", "auth_65535", "recovery_after_faults", "intel_sample_quote", "default_options_on_fake_clock"},
 	})
 }
